@@ -101,6 +101,18 @@ def run_real_chain(script, res, trace):
             res.violate(PROP, 'C18/recorded-block-reencodes-differently', 'block %d does not re-encode to its recorded bytes' % h)
             return
     relay = cfg.get('mode') == 'relay'
+    # before the real chain is validated, the same process builds and validates proof-of-work evidence on ANOTHER branch
+    # from the same genesis (fast stand-in hash): whatever the node remembers from that must not leak into the real chain
+    env.use_fast_scrypt(True)
+    reset_horizon(True)
+    from world import ledger as W
+    alt = CoinState.zero()
+    for j in range(1, 5):
+        ab = consensus.construct_block_for_mining(alt, [], W.key(j).pk, alt.head().timestamp + 60 + cfg.get('variant', 0) % 50, b'alt', j)
+        alt = alt.add_block_no_validation(ab)
+        for nn in range(3):
+            consensus.construct_block_for_mining(alt, [], W.key(j).pk, alt.head().timestamp + 61, b'', nn)
+    res.bump('alternative_branch_evidence_built')
     env.use_fast_scrypt(False)          # the real scrypt
     reset_horizon(low=relay)
     k = Kernel(script.get('seed', 0), cfg.get('profile'))
@@ -233,10 +245,10 @@ def run_checkpoints(script, res, trace):
         return Block(BlockHeader(summ, PowEvidence(b'\x01' * 32, b'\x02' * 32, b'\x03' * 32)), [cb])
 
     def base_at(height):
-        T = block_at(height, rules.ZERO32, W.BASE_TS, 1, b'base')
-        th = T.hash()
-        return CoinState(immutables.Map({th: T}), immutables.Map({th: uto_apply_block(immutables.Map(), T)}),
-                         immutables.Map({th: immutables.Map({height: T})}), immutables.Map({th: T}), th), T
+        # a trusted tip at `height` with the whole never-validated history below it (O(1) index)
+        cs, T, _f = W.hollow_base_far(height, W.TRIVIAL_TARGET, n_outputs=2)
+        W._BASE_CACHE.pop(('far', height, W.TRIVIAL_TARGET, 2, 5_000_000_000), None)
+        return cs, T
 
     now = W.BASE_TS + 1000
     for h in sorted(table):
@@ -247,11 +259,15 @@ def run_checkpoints(script, res, trace):
         for claimed, expect_reject in ((h, True), (h - 1, False), (h + 1, False)):
             if claimed in table and not expect_reject:
                 continue
-            if claimed > consensus.MAX_KNOWN_HASH_HEIGHT or claimed < 1:
+            if claimed < 1:
+                continue
+            if claimed > consensus.MAX_KNOWN_HASH_HEIGHT and (claimed - 1) % rules.RETARGET_PERIOD == 0:
                 continue
             cs, T = base_at(claimed - 1)
             fp = cheap_fp(cs)
-            blk = block_at(claimed, T.hash(), W.BASE_TS + 5 + v % 100, 2 + v, b'forged')
+            # the candidate is assembled by the node's own path and satisfies EVERY in-chain rule (target, time, height,
+            # evidence, reward): at a checkpointed height only the checkpoint comparison can refuse it
+            blk = consensus.construct_block_for_mining(cs, [], W.key((2 + v) % 12).pk, W.BASE_TS + 5 + v % 100, b'', v % 1000)
             if v % 2:
                 blk = Block.deserialize(blk.serialize())
             try:
@@ -262,17 +278,15 @@ def run_checkpoints(script, res, trace):
             res.bump('checkpoint_candidates')
             if expect_reject and accepted:
                 res.violate(PROP, 'C18/wrong-block-accepted-at-checkpoint',
-                            'a block with a foreign id was accepted at checkpointed height %d' % claimed)
+                            'a fully rule-abiding block with a foreign id was accepted at checkpointed height %d' % claimed)
                 return
             if expect_reject and cheap_fp(cs) != fp:
                 res.violate(PROP, 'C18/state-changed-by-rejected-checkpoint-block', 'height %d' % claimed)
                 return
             if not expect_reject and not accepted:
-                # neighbours are accepted unvalidated below the horizon (documented design); if they are not, the
-                # rejection at h above proves nothing about the checkpoint
                 res.bump('probe:neighbour_rejected')
                 res.violate(PROP, 'C18/checkpoint-neighbour-rejected',
-                            'a block at non-checkpointed height %d below the horizon was rejected: the sweep cannot attribute '
+                            'a rule-abiding block at non-checkpointed height %d was rejected: the sweep cannot attribute '
                             'rejections at checkpointed heights to the checkpoint' % claimed)
                 return
         res.bump('checkpoint_heights_swept')
@@ -297,8 +311,8 @@ def run_checkpoints(script, res, trace):
         pass
     hs = 777 + (v % 400)
     cs, T = base_at(hs - 1)
-    right = block_at(hs, T.hash(), W.BASE_TS + 9, 3, b'right')
-    wrong = block_at(hs, T.hash(), W.BASE_TS + 9, 4, b'wrong')
+    right = consensus.construct_block_for_mining(cs, [], W.key(3).pk, W.BASE_TS + 9, b'', 1)
+    wrong = consensus.construct_block_for_mining(cs, [], W.key(4).pk, W.BASE_TS + 9, b'', 2)
     saved = consensus.KNOWN_HASHES
     consensus.KNOWN_HASHES = dict(saved)
     consensus.KNOWN_HASHES[hs] = human(right.hash())
